@@ -68,7 +68,7 @@ CLAIMS = {
         ref="DESIGN.md §8 C06"),
     "C01": dict(
         technique="Lean 4 theorems by induction over loader histories: every accepted instruction is appended to exactly the part (section or function part) the loader destines it to, hence the loaded module is the stable partition of the input; permutation / sub-sequence / identity-on-sorted-input corollaries by generic list lemmas; assembly = header words ++ per-instruction encodings (C15); load_bytes = that loader fed by the parser's delivered instructions (C14 trace theorem); differential loadasm channel judged by an independent encoder and stable-partition oracle",
-        text="Machine-checked for every table set and instruction sequence the loader accepts (with at most one OpMemoryModel and no OpFunctionParameter after its function's first label): each of the 11 sections and the function part of the loaded module is exactly the sub-sequence of the input destined to it, so the assembled instruction sequence is a permutation of the input (nothing dropped, duplicated, invented), every part keeps the input's relative order, an input in layout order comes back identical, and the assembled words are [magic, input version, generator, input bound, 0] followed by the per-instruction encodings. Instruction-level word equality (each parsed instruction re-encodes to the words it came from, up to string padding) and the reload equality are decided by the differential, not a theorem: C01_partial at that layer.",
+        text="Machine-checked for every table set and instruction sequence the loader accepts (with at most one OpMemoryModel and no OpFunctionParameter after its function's first label): each of the 11 sections and the function part of the loaded module is exactly the sub-sequence of the input destined to it, so the assembled instruction sequence is a permutation of the input (nothing dropped, duplicated, invented), every part keeps the input's relative order, an input in layout order comes back identical, and the assembled words are [magic, input version, generator, input bound, 0] followed by the per-instruction encodings. Instruction level (Props/C01Words.lean): whatever parse_inst delivers as i was parsed from a prefix `used` of the stream words with InstWords i used (word count word, result type, result id, one encoding per operand), the assembler's output for i satisfies InstWords i as well, and two word lists with InstWords i have the same length, first word, result words and operand words, inside a string only up to and including the NUL terminator. The reload equality for arbitrary section orders is decided by the differential.",
         note="Trusted: Lean kernel + standard axioms; hand models Loader/LoadBytes/Assemble tied by the loadasm channel (layout-ordered, section-permuted, duplicated-instruction and garbage-padded modules over all core opcodes; outputs loaded again); known finding: a late OpFunctionParameter is moved in front of the blocks.",
         ref="DESIGN.md §8 C01"),
     "C02": dict(
@@ -88,7 +88,7 @@ CLAIMS = {
         ref="DESIGN.md §8 C04"),
     "C18": dict(
         technique="Lean 4 theorems over per-opcode field tables translated (every token) from the 14.5k-line generated lift/autogen_context.rs and the field declarations of sr/autogen_{ops,types,instructions}.rs: positional-reading theorem for the interpreted struct literals, kernel-checked merge walk (proved sound) of all 772 arms against the grammar table and the declarations; hand model of lift/mod.rs tied by a differential whose implementation side is the Debug text of the structured representation, canonicalised type-directed",
-        text="Machine-checked: a struct literal of plain required fields gives field j exactly operand j and leaves the rest (liftFields_req); the lifted node carries the literal's field names in order; for every arm of lift_op / lift_type / lift_branch / lift_terminator / the single-instruction lifts, the arm sits on the grammar entry of its opcode, has one field per grammar operand (result type/id apart) with that operand's variant(s) and multiplicity, and its fields are named and ordered as the declaration of the structured-representation variant it fills (C18_table); a successful conversion keeps the header's version word (C18_header). One type / constant / operation per declaration in order, function control / result / block count / terminators and phi arguments are decided by the differential with an independent oracle: C18_partial at that layer.",
+        text="Machine-checked: a struct literal of plain required fields gives field j exactly operand j and leaves the rest (liftFields_req); the lifted node carries the literal's field names in order; for every arm of lift_op / lift_type / lift_branch / lift_terminator / the single-instruction lifts, the arm sits on the grammar entry of its opcode, has one field per grammar operand (result type/id apart) with that operand's variant(s) and multiplicity, and its fields are named and ordered as the declaration of the structured-representation variant it fills (C18_table); a successful conversion keeps the header's version word (C18_header) and has one type per type declaration, one constant per constant declaration (types_global_values, appended in order), one function per function with one block per block, one block argument per phi, and as many operations as there are result-producing block instructions other than OpPhi/OpLine (C18_structure and the *_counts lemmas). That the k-th operation is the lift of the k-th such instruction, function control / result type and the terminators are decided by the differential with an independent oracle.",
         note="Trusted: Lean kernel + standard axioms; translator lift_context.py; hand model Lift.lean (every HashMap index / unwrap / assert of lift/mod.rs an explicit panic outcome) tied by the lift channel on seeded modules of the supported subset built from the lift tables with pairwise distinct operand values (593 lift_op opcodes in the pool) and on unrestricted modules (errors and panics must agree); tools/srdebug.py.",
         ref="DESIGN.md §8 C18"),
     "C20": dict(
